@@ -508,8 +508,15 @@ func ParseDuration(s string) (Duration, error) {
 // If s is well-formed and near a valid floating-point number, ParseFloat
 // returns the nearest floating-point number rounded using IEEE754 unbiased
 // rounding.
+//
+// ParseFloat accepts only decimal floating-point numbers; hexadecimal
+// floating-point numbers, infinities and NaN are not accepted.
 func ParseFloat(s string) (float64, error) {
-	if strings.HasPrefix(s, "0x") {
+	digits := s
+	if digits != "" && (digits[0] == '+' || digits[0] == '-') {
+		digits = digits[1:]
+	}
+	if len(digits) > 1 && digits[0] == '0' && (digits[1] == 'x' || digits[1] == 'X') {
 		return 0, fmt.Errorf("parseFloat: parsing %q: invalid syntax", s)
 	}
 	f, err := strconv.ParseFloat(s, 64)
